@@ -40,7 +40,7 @@ def _enum_item():
 
 
 def _simple(kind, **kw):
-    return st.builds(lambda e, v: {"k": kind, "e": e, "v": v}, cexpr.expressions(max_leaves=10, **kw), st.integers(0, 3))
+    return st.builds(lambda e, v: {"k": kind, "e": e, "v": v}, cexpr.expressions(max_leaves=10, **kw), st.integers(0, 7 if kind == "constvar" else 3))
 
 
 ITEM = st.one_of(_enum_item(), _enum_item(), _simple("macro"), _simple("array"), _simple("constvar"))
@@ -177,10 +177,25 @@ def build(case, off=frozenset()):
                     exp.append(("array", name + "_t", v3, sorted(f3), name + "_t"))
         else:
             name = "cv%d" % i
-            kw = ["const int", "constexpr int", "static const int", "const long"][it["v"]]
+            kw = ["const int", "constexpr int", "static const int", "const long", "const bool", "const unsigned char", "const short", "const unsigned int"][it["v"]]
+            # the initialiser is converted to the variable's type: that value is what later uses see
+            if kw == "const bool":
+                val, vt = (1 if val else 0), "i"
+            elif kw == "const unsigned char":
+                val, vt = val & 0xff, "i"
+            elif kw == "const short":
+                val, vt = ((val + 0x8000) & 0xffff) - 0x8000, "i"
+            elif kw == "const unsigned int":
+                val, vt = val & 0xffffffff, "u"
+            elif "long" in kw:
+                vt = "l"
+            else:
+                val, vt = ((val + 0x80000000) & 0xffffffff) - 0x80000000, "i"
+            if it["v"] >= 4:
+                feats.add("constvar.converting")
             lines.append("%s %s = %s;" % (kw, name, text))
             exp.append(("constvar", name, val, sorted(feats), name))
-            env.append((name, val, "l" if "long" in kw else "i"))
+            env.append((name, val, vt))
     lines.append("END_PUBLISH")
     return "\n".join(lines) + "\n", exp, excl
 
